@@ -171,6 +171,14 @@ def random_cfg(rnd, mods):
         return None
     if rnd.random() < 0.12:
         batch = subs if rnd.random() < 0.5 else subs[:1]  # several subjects: judged by the sound lower bound only
+        if rnd.random() < 0.4:
+            # subjects whose names coincide once a dot is read as "any character" (r.a.b next to r.a_b.x / r.a-b.x)
+            import re as _re
+
+            twins = [(a, b) for a in mods for b in mods if a != "r" and not related(a, b) and _re.fullmatch(_re.escape(a).replace("\\.", ".") + r"\..+", b)]
+            if twins:
+                batch = list(rnd.choice(twins))
+                rnd.shuffle(batch)
         return {"verb": "should_not", "dir": d, "exc": False, "subs": [(skind, x) for x in batch], "objs": [], "anything": True}
     objs = pick_unrelated(rnd, mods, rnd.randint(1, 3), avoid=subs, kind=okind)
     if not objs:
@@ -206,6 +214,23 @@ def switch_anything_alias(ev, mods, imps, rnd, acc):
     acc.count("rule_objects_switched_between_anything_aliases")
 
 
+def dot_twin_batches(rnd, acc):
+    """'anything' over two subjects whose names coincide once a dot is read as "any character" (r.a.b next to
+    r.a_b.x, r.a-b.x, r.a·b.x): two different, unrelated modules - judged by the sound lower bound for batches."""
+    sep = rnd.choice(["_", "-", "·"])
+    deep = rnd.choice(["x", "models", "b"])
+    mods = ["r", "r.a", "r.a.b", f"r.a{sep}b", f"r.a{sep}b.{deep}", "r.c", "r.d"]
+    pool = [(f"r.a{sep}b.{deep}", "r.c"), ("r.d", f"r.a{sep}b.{deep}"), ("r.a.b", "r.c"), ("r.d", "r.a.b"), ("r.c", "r.d")]
+    imps = sorted(rnd.sample(pool, rnd.randint(1, 4)))
+    ev = build(mods, imps)
+    subs = ["r.a.b", f"r.a{sep}b.{deep}"]
+    rnd.shuffle(subs)
+    for d in rrule.DIRS:
+        cfg = {"verb": "should_not", "dir": d, "exc": False, "subs": [("named", s) for s in subs], "objs": [], "anything": True}
+        _eval(ev, mods, imps, cfg, acc, list_form=True)
+    acc.count("anything_batches_over_dot_twins")
+
+
 def randomised(spec, acc):
     rnd = random.Random(spec["seed"])
     done = 0
@@ -215,6 +240,8 @@ def randomised(spec, acc):
         ev = build(mods, imps)
         if rnd.random() < 0.3:
             switch_anything_alias(ev, mods, imps, rnd, acc)
+        if rnd.random() < 0.2:
+            dot_twin_batches(rnd, acc)
         for _ in range(12):
             cfg = random_cfg(rnd, mods)
             if cfg is None:
